@@ -162,4 +162,64 @@ def _has_leading(n):
         yield from walk(n)
 
 
-PARTS = [Trees()]
+
+class TerminalSize(Part):
+    name = "terminal-size"
+    rule = ("a console that takes its size from the terminal (no width / height given) used for several prints while the terminal's answer changes in between (resized to "
+            "other widths, reporting 0x0, not answering at all, or sys.stdin / sys.stdout missing): every print fits the width the terminal has at that moment "
+            "(80 when it does not say); non-trivial = the width changed between two prints")
+    budget = {"quick": (4, 150), "thorough": (16, 1500)}
+
+    def strategy(self, tier):
+        answer = st.one_of(st.integers(10, 120), st.integers(10, 120), st.sampled_from([0, "error", "no-stdin", "no-streams"]))
+        return st.builds(lambda answers, text, tree: {"answers": answers, "text": text, "tree": tree}, st.lists(answer, min_size=2, max_size=4), GT.text_content(), GT.node(0, "free", max_depth=2))
+
+    def check(self, spec, ctx):
+        import os
+        import sys
+        from rich.console import Console
+        from rich.text import Text
+        from ..oracles import sgr as SGR
+
+        con = sut(Console, file=io.StringIO(), force_terminal=True, color_system=None, legacy_windows=False, _environ={})
+        saved = (os.get_terminal_size, sys.stdin, sys.stdout)
+        widths = []
+        try:
+            for ans in spec["answers"]:
+                sys.stdin, sys.stdout = saved[1], saved[2]
+                if ans == "no-stdin":
+                    sys.stdin = None
+                elif ans == "no-streams":
+                    sys.stdin = None
+                    sys.stdout = None
+
+                def fake(fd=None, _a=ans):
+                    if isinstance(_a, int):
+                        return os.terminal_size((_a, 25 if _a else 0))
+                    raise OSError("not a terminal")
+
+                os.get_terminal_size = fake
+                W = ans if isinstance(ans, int) and ans > 0 else 80
+                widths.append(W)
+                con.file.seek(0)
+                con.file.truncate(0)
+                try:
+                    con.print(Text(spec["text"]))
+                    con.print(GT.build(spec["tree"]))
+                except Exception as e:  # noqa
+                    sys.stdin, sys.stdout = saved[1], saved[2]
+                    from ..core import SutError
+
+                    raise SutError(e)
+                m = max(1, GT.struct_min(spec["tree"]))
+                for ln in SGR.visible(con.file.getvalue()).split("\n"):
+                    if OC.width(ln) > max(W, 0) and W >= m:
+                        ctx.violation("width", "C01/width/terminal-size", "the terminal answered %r (after %r): a line of %d cells was written: %r" % (ans, spec["answers"], OC.width(ln), ln))
+                        return
+        finally:
+            os.get_terminal_size, sys.stdin, sys.stdout = saved
+        if len(set(widths)) > 1:
+            ctx.nontrivial = True
+
+
+PARTS = [Trees(), TerminalSize()]
